@@ -370,6 +370,19 @@ func scratchFile(suffix string) string {
 	return filepath.Join(Scratch(), fmt.Sprintf("f%d%s", n, suffix))
 }
 
+// staleOutput pre-creates the file a writer is about to produce, longer than anything the cases write and
+// full of non-zero bytes: whatever was there before must not survive in the result (every other call)
+var staleCounter = make(chan int, 1)
+
+func init() { staleCounter <- 0 }
+func staleOutput(path string) {
+	n := <-staleCounter
+	staleCounter <- n + 1
+	if n%2 == 0 {
+		os.WriteFile(path, bytes.Repeat([]byte{0xAB}, 300000), 0o644)
+	}
+}
+
 func newServer(items map[string][]byte, cacheMB int) *pmtiles.Server {
 	s, _ := pmtiles.NewServerWithBucket(pmtiles.VerifNewMemoryBucket(items), "", discardLogger, cacheMB, "")
 	s.Start()
